@@ -74,8 +74,25 @@ def main():
     known = common.load_known(prop)
     for k in known:
         hits = merged["known_hits"].get(k["signature"], 0)
-        if hits:
-            print("KNOWN-FINDING: property=%s %s (hit %d times)" % (prop, k["what"], hits))
+        # the recorded minimal case of every known finding is replayed on each run, so the line is
+        # printed whether or not the random search happened to hit it
+        reproduced = None
+        if k.get("replay"):
+            try:
+                with open(os.path.join(HERE, k["replay"])) as f:
+                    rec = json.load(f)
+                mod.replay(rec["case"], rec.get("sub"))
+                reproduced = False
+            except common.Violation as v:
+                reproduced = common.match_known([k], v.signature) is not None
+                if not reproduced:
+                    merged["violations"].append({"signature": v.signature, "message": v.message,
+                                                 "case": rec["case"], "sub": rec.get("sub")})
+        if hits or reproduced:
+            print("KNOWN-FINDING: property=%s %s (recorded case reproduces: %s; hit %d times in this run's search)" % (
+                prop, k["what"], reproduced, hits))
+        elif reproduced is False:
+            print("note: known finding no longer reproduces from its recorded case: %s" % k["signature"])
     rc = 0
     for v in merged["violations"]:
         rp = common.save_replay(prop, v)
